@@ -601,6 +601,8 @@ def _const_type(e: ast.AST, env):
 
 
 def _test(e: ast.AST, env, op) -> bool:
+    if isinstance(e, ast.Name) and isinstance(env.get(e.id), tuple) and env[e.id][:1] == ("flag",):
+        return env[e.id][1]
     if isinstance(e, ast.BoolOp):
         vals = [_test(v, env, op) for v in e.values]
         return all(vals) if isinstance(e.op, ast.And) else any(vals)
@@ -703,7 +705,11 @@ def _run_body(body, env, op, selfname):
                 try:
                     env[tg.id] = _const_type(s.value, env)
                 except _Unsupported:
-                    pass  # unrelated assignment (t_node = ..., role variables already bound)
+                    # a flag: keeps_type = not isinstance(node.op, ast.Not)
+                    try:
+                        env[tg.id] = ("flag", _test(s.value, env, op))
+                    except _Unsupported:
+                        pass  # unrelated assignment (t_node = ..., role variables already bound)
                 continue
         if isinstance(s, (ast.Expr, ast.Assert, ast.Return)):
             if isinstance(s, ast.Return):
@@ -833,7 +839,8 @@ def check_mro_walk(run: Run, m, rule: str) -> None:
     run.floor(rule, len(loops), 1, "MRO walks in get_method_and_class")
     n = 0
     for lp in loops:
-        for r in [x for x in ast.walk(lp) if isinstance(x, ast.Return) and x.value is not None and not (isinstance(x.value, ast.Constant) and x.value.value is None)]:
+        # the walk ends early by returning the class found, or by leaving the loop for the return behind it
+        for r in [x for x in ast.walk(lp) if (isinstance(x, ast.Return) and x.value is not None and not (isinstance(x.value, ast.Constant) and x.value.value is None)) or (isinstance(x, ast.Break) and fa.cfg.has_node(x))]:
             n += 1
             knows = False
             for a, pol in Facts(fa, r).atoms:
